@@ -53,18 +53,18 @@ pub(super) fn render_debug_info(
                 .unwrap_or("Template Source")
         );
         ok!(writeln!(f));
-        writeln!(f, "{:-^1$}", title, 79).unwrap();
+        ok!(writeln!(f, "{:-^1$}", title, 79));
         let lines: Vec<_> = source.lines().enumerate().collect();
         let idx = line.unwrap_or(1).saturating_sub(1);
         let skip = idx.saturating_sub(3);
         let pre = lines.iter().skip(skip).take(3.min(idx)).collect::<Vec<_>>();
         let post = lines.iter().skip(idx + 1).take(3).collect::<Vec<_>>();
         for (idx, line) in pre {
-            writeln!(f, "{:>4} | {}", idx + 1, line).unwrap();
+            ok!(writeln!(f, "{:>4} | {}", idx + 1, line));
         }
 
         if let Some(line) = lines.get(idx) {
-            writeln!(f, "{:>4} > {}", idx + 1, line.1).unwrap();
+            ok!(writeln!(f, "{:>4} > {}", idx + 1, line.1));
         }
         if let Some(span) = span {
             if span.start_line == span.end_line {
@@ -79,12 +79,11 @@ pub(super) fn render_debug_info(
         }
 
         for (idx, line) in post {
-            writeln!(f, "{:>4} | {}", idx + 1, line).unwrap();
+            ok!(writeln!(f, "{:>4} | {}", idx + 1, line));
         }
-        write!(f, "{:~^1$}", "", 79).unwrap();
+        ok!(write!(f, "{:~^1$}", "", 79));
     }
     ok!(writeln!(f));
     ok!(writeln!(f, "{:#?}", VarPrinter(&info.referenced_locals)));
-    write!(f, "{:-^1$}", "", 79).unwrap();
-    Ok(())
+    write!(f, "{:-^1$}", "", 79)
 }
